@@ -16,6 +16,8 @@ CONSTANTS Sizes,      \* segment sizes S explored; message lengths are 0..3S+1
           MaxZero,    \* zero-length reads a source may return in total
           Defect      \* "none" | "swallow" (any read error is taken for EOF) | "nocarry" (carry-over byte dropped)
                       \* | "eager-last" (fills only S bytes; last decided by the EOF seen so far)
+                      \* | "small-counter-limit" (the overflow guard of the 32-bit segment counter fires at the SECOND segment: the
+                      \*   stream is refused as "too large" far below the documented limit of 2^32 segments)
                       \* | "empty-read-budget" (gives up with an error after 2 reads returning (0, nil) in the WHOLE stream:
                       \*   the counter of "consecutive" empty reads is never reset on progress)
 
@@ -97,7 +99,9 @@ Decide ==
 Written ==
   /\ pc = "write" /\ pipeLeft = 0
   /\ err' = "nil" /\ seg' = seg + 1
-  /\ IF done THEN closed' = "eof" /\ pc' = "closed" ELSE closed' = closed /\ pc' = "top"
+  /\ IF done THEN closed' = "eof" /\ pc' = "closed"
+     ELSE IF Defect = "small-counter-limit" /\ seg = 1 THEN closed' = "err" /\ pc' = "closed"      \* :333-337 (real guard: 2^32-1, unreachable here)
+     ELSE closed' = closed /\ pc' = "top"
   /\ UNCHANGED <<S, len, pos, seof, sfail, zeros, failOK, empties, n, bufFrom, carry, done, pipeLeft, cbuf, phase, c>>
 
 (* consumer: one Read(cbuf) on the pipe *)
